@@ -161,6 +161,15 @@ Lemma gen_smc_getitem {X} (x : list X) ll lp lq b le lee idx dX :
   /\ smc_getitem_log_evidence_error x ll lp lq b le lee idx dX = lee.
 Proof. repeat split; reflexivity. Qed.
 
+(* a weightless set that carries an evidence (the final result of an SMC run: to_standard_samples) keeps it under selection *)
+Lemma gen_samples_getitem_unweighted {X} (x : list X) ll lp le lee idx dX :
+  samples_getitem_unweighted_x x ll lp le lee idx dX = select idx x dX
+  /\ samples_getitem_unweighted_log_likelihood x ll lp le lee idx dX = select idx ll 0%R
+  /\ samples_getitem_unweighted_log_prior x ll lp le lee idx dX = select idx lp 0%R
+  /\ samples_getitem_unweighted_log_evidence x ll lp le lee idx dX = le
+  /\ samples_getitem_unweighted_log_evidence_error x ll lp le lee idx dX = lee.
+Proof. repeat split; reflexivity. Qed.
+
 Lemma gen_samples_getitem {X} (x : list X) ll lp lq lw w le lee idx dX :
   samples_getitem_x x ll lp lq lw w le lee idx dX = select idx x dX
   /\ samples_getitem_log_likelihood x ll lp lq lw w le lee idx dX = select idx ll 0%R
